@@ -479,14 +479,22 @@ func (g unionKindedReprBuilderGenerator) EmitNodeAssemblerMethodBeginList(w io.W
 	), w, g.AdjCfg, g)
 }
 func (g unionKindedReprBuilderGenerator) EmitNodeAssemblerMethodAssignNull(w io.Writer) {
-	// TODO: I think this may need some special handling to account for if our union is itself used in a nullable circumstance; that should overrule this behavior.
-	doTemplate(kindedUnionNodeAssemblerMethodTemplateMunge(
-		`AssignNull`,
-		`AssignNull() error `,
-		`{{- if eq $member.RepresentationBehavior.String "null" }}`,
-		`.AssignNull()`,
-		false,
-	), w, g.AdjCfg, g)
+	// No member of a kinded union is represented by null, so there is nothing to delegate to;
+	//  but the union may itself sit in a nullable slot, and then null is what the slot holds.
+	doTemplate(`
+		func (na *_{{ .Type | TypeSymbol }}__ReprAssembler) AssignNull() error {
+			switch *na.m {
+			case allowNull:
+				*na.m = schema.Maybe_Null
+				return nil
+			case schema.Maybe_Value, schema.Maybe_Null:
+				panic("invalid state: cannot assign into assembler that's already finished")
+			case midvalue:
+				panic("invalid state: cannot assign into assembler that's already working on a larger structure!")
+			}
+			return schema.ErrNotUnionStructure{TypeName: "{{ .PkgName }}.{{ .Type.Name }}.Repr", Detail: "AssignNull called but is not valid for any of the kinds that are valid members of this union"}
+		}
+	`, w, g.AdjCfg, g)
 }
 func (g unionKindedReprBuilderGenerator) EmitNodeAssemblerMethodAssignBool(w io.Writer) {
 	doTemplate(kindedUnionNodeAssemblerMethodTemplateMunge(
